@@ -29,11 +29,12 @@ const (
 	TVp // (*hw.V).PtrM, reached with Struct(&hw.V{}) (pointer instance)
 	TLm2 // (*hw.S).m2, a second unexported method of S
 	TLoop // hw.Loop: mockable, but an apply with an origin placeholder must be refused
+	TXB   // X.B: a second method of the interface variable, of the same signature as X.A
 	NTargets
 )
 
 // TargetNames for printing.
-var TargetNames = []string{"F0", "F1", "(*S).M", "(*S).m", "G", "hw.g2", "own.g2", "X.A", "V.ValM", "(*V).PtrM", "(*S).m2", "Loop"}
+var TargetNames = []string{"F0", "F1", "(*S).M", "(*S).m", "G", "hw.g2", "own.g2", "X.A", "V.ValM", "(*V).PtrM", "(*S).m2", "Loop", "X.B"}
 
 //go:noinline
 func g2(a int) int {
@@ -49,7 +50,7 @@ func g2(a int) int {
 func CallOwnG2(a int) int { return g2(a) }
 
 // Original results: a + Orig[t]; X.A unmocked panics (nil interface).
-var Orig = []int{100, 200, 300, 400, 500, 600, 650, 0, 150, 250, 450, 0}
+var Orig = []int{100, 200, 300, 400, 500, 600, 650, 0, 150, 250, 450, 0, 0}
 
 // OrigOf is the original result of target t for argument a.
 func OrigOf(t Target, a int) int {
@@ -89,6 +90,8 @@ func Call(t Target, a int) int {
 		return hw.CallLowerM2(&hw.S{K: 1}, a)
 	case TLoop:
 		return hw.Loop(a)
+	case TXB:
+		return hw.CallXB(a)
 	}
 	panic("bad target")
 }
@@ -271,6 +274,8 @@ func (w *World) lookup(b int, t Target) *handle {
 		h.unexported = bd.ExportFunc("g2")
 	case TXA:
 		h.iface = bd.Interface(&hw.X).Method("A")
+	case TXB:
+		h.iface = bd.Interface(&hw.X).Method("B")
 	case TVv:
 		h.exported = bd.Struct(hw.V{}).Method("ValM")
 	case TVp:
@@ -362,7 +367,7 @@ func (w *World) Do(op Op) (panicMsg string, panicked bool) {
 				} else {
 					h.unexported.Apply(cb)
 				}
-			case t == TXA:
+			case t == TXA || t == TXB:
 				h.iface.Apply(func(ctx *mocker.IContext, a int) int { return a + add })
 			case h.exported != nil:
 				h.exported.Apply(func(a int) int { return a + add })
